@@ -94,6 +94,11 @@ Definition in_boxb (lo hi p : vec3 F) : bool :=
   (v3z lo <=? v3z p) && (v3z p <=? v3z hi).
 End Spec.
 
+(* ---------------------------------------------------------------- mesh level (hand-written model, binding H)
+   modeling.Mesh.Rotate / Translate / Scale / ApplyTRS rebuild the Position attribute by applying one point
+   function to every entry; everything else of the mesh is shared.  The model of the Position array: *)
+Definition mesh_map {F : Type} (f : vec3 F -> vec3 F) (positions : list (vec3 F)) : list (vec3 F) := map f positions.
+
 (* boxes over R: the closed box [lo,hi] *)
 Definition in_box (lo hi p : vec3 R) : Prop :=
   (v3x lo <= v3x p <= v3x hi /\ v3y lo <= v3y p <= v3y hi /\ v3z lo <= v3z p <= v3z hi)%R.
